@@ -25,10 +25,17 @@ class PairingRoles:
         fns = [b for b in F.fn_bodies() if self.in_module(b) and b.rec.get("inputs") is not None]
         self.fns = fns
         by = {}
+
+        def nrm(t):
+            # by-value and by-shared-reference parameters are the same role; `&mut` is not
+            t = (t or "").strip()
+            if t.startswith("&mut "):
+                return "&mut " + t[5:].strip()
+            return t.lstrip("&").strip()
         for b in fns:
-            by.setdefault(sig(b), []).append(b)
+            by.setdefault((tuple(nrm(x) for x in b.rec["inputs"]), b.rec.get("output")), []).append(b)
         self.by_sig = by
-        g = lambda ins, out: [b for b in by.get((tuple(ins), out), [])]
+        g = lambda ins, out: [b for b in by.get((tuple(nrm(x) for x in ins), out), [])]
         self.tangent_eval = g(["&" + G2T, "&" + G1T], PAIR12)
         self.chord_eval = g(["&" + G2T, "&" + G2T, "&" + G1T], PAIR12)
         self.tangent_step = g(["&mut " + G2T], TRIPLE)
@@ -36,7 +43,11 @@ class PairingRoles:
         self.twist_frob = g(["&" + G2T], G2T)
         self.twist_frob_by = g(["&" + G2T, "&" + FQ2], "core::option::Option<%s>" % G2T)
         self.pow = g(["&" + FQ12, "u128"], FQ12)
-        self.sparse = [b for b in fns if b.rec.get("output") == FQ12 and tuple(b.rec["inputs"][-3:]) == ("&" + TRIPLE, "&" + FQ2, "&" + FQ)]
+        # builds the sparse Fq12 line value from a stored coefficient triple (whole or destructured) and the G1 point's coordinates
+        def strip_ref(t):
+            return t.lstrip("&").replace("mut ", "").strip()
+        self.sparse = [b for b in fns if b.rec.get("output") == FQ12 and not any(strip_ref(t) in (FQ12, G1T, G2T) for t in b.rec["inputs"])
+                       and any(strip_ref(t) in (TRIPLE, FQ2) for t in b.rec["inputs"]) and any(strip_ref(t) == FQ for t in b.rec["inputs"])]
         self.jac_loop = [b for b in g(["&" + G2T, "&" + G1T], FQ12) if b.vis == "Public"]
         self.prepared_ty = None
         self.producer = None
